@@ -365,7 +365,7 @@ META = {
                         "node at a symbolic level-2 address with symbolic request outcome and no / 1-byte / 2-byte / 5-byte symbolic "
                         "answer injected at a symbolic clock look",
                "thorough": "1..6, 8 and 12 direct joiners, up to 4 joiners through the relay"},
-    "outside": ["start offsets, join orders other than sequential, MCU timing jitter, true concurrency (the cooperative schedule is "
+    "outside": ["start offsets, join orders other than sequential, MCU timing jitter beyond the symbolic hold-back schedules (the first K occasions a node could run it may be held back for 1/8/40 poll points; K = 4..6 quick, 6..8 thorough), true concurrency (the cooperative schedule is "
                 "one schedule)", "packet loss with more than one joiner (O3 covers master + 1 joiner with a symbolic fate per packet; per-node steps with symbolic outcomes: O2, C07, C15)",
                 "more than 12 joiners"],
     "assumptions": ["cooperative schedule of env/medium.py; loss-free medium", "the relay is placed at 0o1 with the private _begin (its "
